@@ -1246,7 +1246,15 @@ impl World {
                 .encode()
                 .len()
         };
-        let empty_eci_len = DataItem::ExtendedCommitInfo(Bytes::new()).encode().len();
+        // the fallback item: the encoded well-formed empty extended commit info for this round
+        let empty_eci_len = DataItem::ExtendedCommitInfo(
+            ExtendedCommitInfoWithCurrencyPairMapping::empty(Round::from(lc_round))
+                .into_raw()
+                .encode_to_vec()
+                .into(),
+        )
+        .encode()
+        .len();
         // the upgrade-change-hashes item the code will inject at an upgrade activation height
         let up = {
             let upgrades = self.insts[i].app.upgrades_handler.upgrades();
